@@ -121,3 +121,14 @@ def check_C03():
     sizes = {"int": 60, "float": 40, "string": 60, "any": 40} if q else {"int": 300, "float": 200, "string": 300, "any": None}
     eps = {"try_from", "from", "try_from_ref", "from_ref", "from_str_s", "default", "try_new", "new"}
     return run_direct_property("C03", eps, sizes, 30 if q else 200, True)
+
+
+def check_C07():
+    q = tier() == "quick"
+    sizes = {"int": 70, "float": 70, "string": 80, "any": 20} if q else {"int": 400, "float": 500, "string": 600, "any": None}
+    return run_direct_property("C07", {"try_new", "new"}, sizes, 40 if q else 300, False, mc_suffix="c07",
+                               lifts=1 if q else 2, reject_is_violation=variant_reject,
+                               evidence_extra={"slice": "every permutation of the validator lists (int: lower+upper+predicate; "
+                                               "float: lower+upper+finite+predicate; string: 4 and 5 of not_empty, len_char_min, "
+                                               "len_char_max, predicate, regex), contradictory expression bounds included; "
+                                               "error enum variants checked by an exhaustive match without wildcard"})
